@@ -59,7 +59,7 @@ def gen_query(rng):
     if len(items) >= 2 and rng.random() < 0.08:
         # '&amp;' pasted from html for '&' (a key that really starts with 'amp;' for every function but normalize_url)
         i = rng.randrange(1, len(items))
-        return "?" + "&".join(items[:i]) + rng.choice(["&amp;", "&amp%3B", "&AMP;", "&amp%3b"]) + "&".join(items[i:])
+        return "?" + "&".join(items[:i]) + rng.choice(["&amp;", "&amp%3B", "&AMP;", "&amp%3b", "&%61mp;", "&a%4Dp%3B"]) + "&".join(items[i:])
     return "?" + "&".join(items)
 
 
@@ -154,6 +154,14 @@ JUNK_SUF = ["", " ", "\n", "\x00", " \x00", "\x00 ", " \x7f\t", "\x1b \x0e", "\x
 def wrap_junk(u, rng):
     """Surrounding whitespace and control characters, in any order (a control character may shield whitespace)."""
     return rng.choice(JUNK_PRE) + u + rng.choice(JUNK_SUF)
+
+
+def insert_controls(u, rng):
+    """One to three control characters dropped anywhere inside the string."""
+    for _ in range(rng.choice([1, 1, 2, 3])):
+        i = rng.randrange(len(u) + 1)
+        u = u[:i] + rng.choice(["\x00", "\x01", "\x7f", "\x9f", "\x1b", "\x85"]) + u[i:]
+    return u
 
 
 def call(f, *a, **k):
